@@ -2,6 +2,7 @@
 From Coq Require Import List Arith.
 Require Import JV.Model.ParallelCore JV.Proofs.ParallelInv1 JV.Proofs.ParallelTrk JV.Proofs.ParallelInv4 JV.Proofs.ParallelInv5
                JV.Proofs.ParallelInv6 JV.Proofs.ParallelMisc.
+Require Import JV.Model.ParallelSync JV.Proofs.SyncFrame JV.Proofs.SyncThm.
 Import ListNotations.
 
 (* a completion callback of an earlier call changes nothing but the in-flight bookkeeping *)
@@ -70,3 +71,21 @@ Theorem C04_completions_bounded : forall s, reach s -> ifail s = None ->
   n_comp s <= n_disp s /\ n_disp s <= taken s /\ taken s <= N s.
 Proof. exact completions_bounded. Qed.
 Print Assumptions C04_completions_bounded.
+
+(* ---- backends that do not retrieve results in their completion callback (Model/ParallelSync.v) ---- *)
+(* the exception of the retrieval that failed (a task's exception, or TimeoutError from
+   retrieve_result(job, timeout)) is what the call raises, at once; the object is left not running, with an
+   empty job queue: reusable *)
+Theorem C04_sync_failure_is_raised : forall s j e, blk s = Some j ->
+  snd (sstep s (SResult (Some e))) = [SRaised e] /\
+  running (base (fst (sstep s (SResult (Some e))))) = false /\
+  jobs (base (fst (sstep s (SResult (Some e))))) = [] /\
+  blk (fst (sstep s (SResult (Some e)))) = None.
+Proof. exact sync_failure_is_raised. Qed.
+Print Assumptions C04_sync_failure_is_raised.
+
+(* a failure of the input iterable registered by any thread is raised by the caller's loop, never swallowed *)
+Theorem C04_sync_input_failure_is_raised : forall s, sreach s -> exception (base s) = true ->
+  phase (base s) = Retrieving -> exists e, snd (adv_s (base s)) = Some (SRaised e).
+Proof. exact sync_input_failure_is_raised. Qed.
+Print Assumptions C04_sync_input_failure_is_raised.
